@@ -1,7 +1,7 @@
 (* C19 — nsq_to_file never acknowledges what it has not safely written.
    Property theorems only (proofs in proofs/FileLoggerProofs.v). *)
 From Coq Require Import List ZArith NArith Bool.
-From NSQV Require Import model.Judge model.FileOS model.FileLogger proofs.FileOSProofs proofs.FileLoggerProofs.
+From NSQV Require Import model.Judge model.FileOS model.FileLogger proofs.FileOSProofs proofs.FileLoggerProofs proofs.FileLoggerUnique.
 Import ListNotations.
 Open Scope N_scope.
 
@@ -47,6 +47,27 @@ Theorem C19_trace_is_the_run : forall c fs0 es,
 Proof. exact fs_is_replay. Qed.
 Print Assumptions C19_trace_is_the_run.
 
+(* "In exactly one file": at every event boundary of every run in which the delivered
+   message ids are distinct, over pre-existing files with distinct names (and no ghost
+   tags), every finished message's line is in the durable part of a file, and no other
+   file name holds a chunk written for that message (durable or not).  (Inside Close the
+   link/unlink hand-off holds the content under two names for one instant; see
+   C19_fin_after_sync for all instants.) *)
+Theorem C19_exactly_one_file : forall c fs0 es m,
+  NoDup (keys fs0) -> fs_tags fs0 = [] -> NoDup (flat_map ev_id es) ->
+  In m (finished (run c fs0 es)) ->
+  exists k f, lookup (fs (run c fs0 es)) k = Some f /\ In (line m) (f_dur f) /\
+    forall k' f', lookup (fs (run c fs0 es)) k' = Some f' -> In (fst m) (tags (content f')) -> k' = k.
+Proof. exact exactly_one_file. Qed.
+Print Assumptions C19_exactly_one_file.
+
+(* ... and no message is written twice anywhere *)
+Theorem C19_tags_unique : forall c fs0 es,
+  NoDup (keys fs0) -> fs_tags fs0 = [] -> NoDup (flat_map ev_id es) ->
+  NoDup (keys (fs (run c fs0 es))) /\ NoDup (alltags (run c fs0 es)).
+Proof. exact tags_unique. Qed.
+Print Assumptions C19_tags_unique.
+
 (* ---------- non-vacuity ---------- *)
 Definition ex_fmt : bytes := [116;60;82;69;86;62;46;108;111;103;46;103;122].   (* "t<REV>.log.gz" *)
 Definition ex_cfg : cfg := mkCfg true 0 0 true false 2 ex_fmt (fun _ => []).
@@ -73,6 +94,11 @@ Proof.
   exists (firstn 4 (trace (run ex_cfg ex_pre ex_events))), (skipn 4 (trace (run ex_cfg ex_pre ex_events))).
   split. symmetry. apply firstn_skipn. vm_compute. split. discriminate. reflexivity.
 Qed.
+
+Example C19_ex_unique_hyps :
+  NoDup (keys ex_pre) /\ fs_tags ex_pre = [] /\ NoDup (flat_map ev_id ex_events)
+  /\ In (1, [97]) (finished (run ex_cfg ex_pre ex_events)).
+Proof. vm_compute. repeat split; repeat constructor; simpl; intuition discriminate. Qed.
 
 (* Observation (not part of the property): after a successful work-dir -> output-dir move
    Close returns without clearing f.out; the next message hits the closed file, the tool
